@@ -24,7 +24,9 @@ RULE = ("lines of 1-7 ordinates k/8 on increasing half-integer thresholds: non-d
         "(scattered, whole line, or placed so that every decrease sits across a NaN gap and no neighbouring pair decreases anywhere in the array; each "
         "such line also as an array of its own), 0-2 extra dimensions stored in shuffled order with the threshold dimension anywhere; new thresholds inside/outside/"
         "duplicating the grid; 4 fill methods x min_nonnan 0-4; tolerances 0, k/8 and exactly the total decrease; observations on/between/outside "
-        "thresholds or NaN; a case is distinct by the hash of function + inputs and non-trivial when the function returns a value")
+        "thresholds or NaN (+-inf for observed_cdf / round_values); thresholds moved to base + scale * x (1e6, 101325 at 1/16, ...) in 30 % of the fill / "
+        "add_thresholds / adjust calls; observations lacking a forecast dimension in 30 % of the adjust calls; Datasets of 2-3 variables with different "
+        "NaN positions for propagate_nan; a case is distinct by the hash of function + inputs and non-trivial when the function returns a value")
 ASSUMPTIONS = ["thresholds are finite; observations passed to adjust_fcst_for_crps are finite or NaN (an infinite one is only checked through the relation "
                "'treated as a missing observation', known finding adjust-infinite-observation); observed_cdf and round_values are checked with +-inf too",
                "round_values is checked for dyadic precisions whose multiples have at most 7 decimals"]
@@ -39,7 +41,7 @@ EXPECT_COUNTS = ["envelope", "envelope:line_alone", "envelope:decrease_across_na
                  "decreasing", "decreasing:error_path", "probe:decreasing_boundary",
                  "propagate_nan", "propagate_nan:dataset", "observed_cdf", "observed_cdf:include_obs:precision", "observed_cdf:include_obs:no_rounding",
                  "observed_cdf:given_thresholds_only:precision", "observed_cdf:given_thresholds_only:no_rounding", "observed_cdf:infinite_obs",
-                 "observed_cdf:error_path", "probe:observed_cdf_options", "round_values", "round_values:infinite", "round_values:error_path", "probe:precision_zero",
+                 "observed_cdf:error_path", "observed_cdf:integer_storage", "probe:observed_cdf_options", "probe:all_nan_array", "round_values", "round_values:infinite", "round_values:error_path", "probe:precision_zero",
                  "adjust:some_decreasing", "adjust:none_decreasing", "adjust:chosen_original", "adjust:chosen_upper", "adjust:chosen_lower",
                  "adjust:never_flatters_checked", "adjust:tie_corpus", "adjust:error_path", "adjust:obs_lacks_fcst_dim", "adjust:thresholds_far_from_zero",
                  "adjust:inf_obs_as_missing", "adjust:tolerated_dip_next_to_flagged", "probe:adjust_tolerated_next_to_flagged", "probe:adjust_boundary", "probe:adjust_dense_additional_thresholds", "probe:adjust_obs_lacks_fcst_dim",
@@ -570,9 +572,15 @@ def check_propagate_dataset(ctx, da, sizes):
 EPS = [4e-8, -4e-8, 1 / 3 * 1e-6, 0.123456789e-2]     # more than 7 decimals
 
 
-def check_observed(ctx, obs_vals=None, tv=None, inc=None, prec=None):
+def check_observed(ctx, obs_vals=None, tv=None, inc=None, prec=None, dtype=None):
     rng = ctx.rng
     c = C()
+    if obs_vals is None and rng.random() < 0.15:      # whole-number observations stored as (unsigned) integers
+        prec = rng.choice([0, 0, 2, 0.5])
+        obs_vals = [float(rng.randint(0, 6)) for _ in range(rng.randint(1, 4))]
+        tv = None if rng.random() < 0.3 else [rng.randint(0, 12) / 2.0 for _ in range(rng.randint(1, 4))]
+        inc = True if tv is None else rng.random() < 0.5
+        dtype = rng.choice([np.uint8, np.uint16, np.int32, np.int64])
     if obs_vals is None:
         n = rng.randint(1, 4)
         prec = rng.choice([0, 0, 0.5, 1, 0.25])
@@ -585,7 +593,10 @@ def check_observed(ctx, obs_vals=None, tv=None, inc=None, prec=None):
     n = len(obs_vals)
     sizes = {"a": n}
     obs = xr.DataArray(obs_vals, dims=["a"], coords={"a": list(range(n))})
-    desc = {"fn": "observed_cdf", "obs": gens.da_repr(obs), "threshold_values": tv, "include_obs_in_thresholds": inc, "precision": prec}
+    if dtype is not None:
+        obs = obs.astype(dtype)
+        ctx.count("observed_cdf:integer_storage")
+    desc = {"fn": "observed_cdf", "obs_dtype": str(obs.dtype), "obs": gens.da_repr(obs), "threshold_values": tv, "include_obs_in_thresholds": inc, "precision": prec}
     impl = core.call_impl(c.observed_cdf, obs, TD, threshold_values=tv, include_obs_in_thresholds=inc, precision=prec)
     ctx.case(desc, nontrivial=impl[0] == "ok")
     ctx.count("observed_cdf")
@@ -601,9 +612,9 @@ def check_observed(ctx, obs_vals=None, tv=None, inc=None, prec=None):
         r = q - fl
         k = fl if r < Fraction(1, 2) else (fl + 1 if r > Fraction(1, 2) else (fl if fl % 2 == 0 else fl + 1))
         return float(k * Fraction(prec))
-    ro = [rnd(float(x)) for x in obs.values]
+    ro = [rnd(float(x)) for x in obs_vals]
     grid = sorted(set([x for x in ro if inc and not np.isnan(x)] + [float(x) for x in (tv or [])]))
-    all_nan = bool(np.isnan(obs.values).all())
+    all_nan = all(np.isnan(x) for x in obs_vals)
     if all_nan and tv is None:
         if impl[0] != "err":
             ctx.violation("observed_cdf must raise when there is neither a non-NaN observation nor a threshold value", desc, "err:ValueError", "a value")
@@ -964,12 +975,30 @@ def probes(ctx):
             check_observed(ctx, ovals, tvals, inc, prec)
             check_observed(ctx, ovals, tvals, inc, 0)
             ctx.count("probe:observed_cdf_options", 2)
+    # arrays that are entirely NaN (single CDF and small batch): every tool returns NaN / leaves them alone, none raises
+    for lines in ([[NAN, NAN, NAN]], [[NAN, NAN, NAN], [NAN, NAN, NAN]]):
+        an = arr(lines, [0, 2, 4])
+        sz = {"a": len(lines)}
+        for method in FILLS:
+            check_fill(ctx, an, sz, [0, 2, 4], method, 2)
+            check_add_thresholds(ctx, given=(an, sz, [0, 2, 4], [0.5, 3.0], method, 2))
+        check_envelope(ctx, an, sz)
+        check_decreasing(ctx, an, sz, [0, 2, 4], 0.0)
+        ob = xr.DataArray([0.5] * len(lines), dims=["a"], coords={"a": list(range(len(lines)))})
+        check_adjust(ctx, given=(an, sz, [0, 2, 4], ob, 0.0, None, "linear", "exact"))
+        # every CDF has one NaN ordinate (the array is all NaN once propagated)
+        part = arr([[0.5, NAN, 0.25]] * len(lines), [0, 2, 4])
+        check_adjust(ctx, given=(part, sz, [0, 2, 4], ob, 0.0, None, "linear", "exact"))
+        ctx.count("probe:all_nan_array")
     # error paths: fill_cdf with an unknown method name; add_thresholds('linear') with min_nonnan below 2; observed_cdf with nothing to build
     # thresholds from
     check_fill(ctx, arr([[0, NAN, 1]], [0, 2, 4]), {"a": 1}, [0, 2, 4], "cubic", 2)
     check_add_thresholds(ctx, given=(arr([[0, 0.5, 1]], [0, 2, 4]), {"a": 1}, [0, 2, 4], [0.5], "linear", 1))
     check_add_thresholds(ctx, given=(arr([[0, 0.5, 1], [NAN, 0.25, NAN]], [0, 2, 4]), {"a": 2}, [0, 2, 4], [0.5, 1e6, -1e6], "linear", 2))
     check_observed(ctx, [NAN, NAN], None, True, 0)
+    check_decreasing(ctx, arr([[0, 0.5, 1]], [0, 2, 4]), {"a": 1}, [0, 2, 4], -0.125)          # negative tolerance
+    check_decreasing(ctx, arr([[0, NAN, 1], [0, 0.5, 1]], [0, 2, 4]), {"a": 2}, [0, 2, 4], 0.0)  # a partly-NaN CDF
+    check_round(ctx, [0.5, 1.25], -1)
     # envelope of CDFs whose decreases all sit across NaN gaps (gap of 1-3 NaN; drop tiny / moderate / full; also leading and trailing NaN
     # and two gaps): together in one array in which no neighbouring pair decreases, each alone (1-D), next to a line with a neighbouring
     # decrease, and with the threshold dimension first
